@@ -102,19 +102,19 @@ Lemma ws_prefix_len_le cs : ws_prefix_len cs <= length cs.
 Proof. induction cs as [|x r IH]; [cbn; lia|]. cbn [ws_prefix_len length]. destruct (ws_elem x); lia. Qed.
 
 (* ------------------------------------------------------------------ Entry::replace *)
-Lemma ereplace_runs_gen k epre epost pre ocs post r j ts tid ri b c tr rr :
+Lemma ereplace_runs_new k epre epost pre ocs post ncs j ts tid ri b c tr rr :
   nth_error ts tid = Some (mk_slot true ri (Node k (epre ++ Node ENTRY (pre ++ Node RELATION ocs :: post) :: epost))) ->
-  nth_error ts tr = Some (mk_slot true rr (crel_tree r)) -> tid <> tr ->
+  nth_error ts tr = Some (mk_slot true rr (Node RELATION ncs)) -> tid <> tr ->
   nth_index is_relation j (pre ++ Node RELATION ocs :: post) = Some (length pre) ->
-  ws_prefix_len ocs = 0 ->
+  ws_prefix_len ocs = 0 -> ws_prefix_len ncs = 0 -> ws_prefix_len (rev ncs) = 0 ->
   exists ts' a' b' c' x,
     runs (run_op fixed (OEReplace 0 j 1))
          (st5 ts (mk_hnd tid []) (Some (mk_hnd tid [length epre])) b c (Some (mk_hnd tr []))) x
          (st5 ts' (mk_hnd tid []) a' b' c' None) /\
     nth_error ts' tid = Some (mk_slot true ri
-      (Node k (epre ++ Node ENTRY (pre ++ dressed (Node RELATION ocs) (crel_tree r) :: post) :: epost))).
+      (Node k (epre ++ Node ENTRY (pre ++ dressed (Node RELATION ocs) (Node RELATION ncs) :: post) :: epost))).
 Proof.
-  intros HT HR Hne Hidx Hh.
+  intros HT HR Hne Hidx Hh Wh Wt.
   set (O := Node RELATION ocs) in *. set (E := Node ENTRY (pre ++ O :: post)) in *.
   set (T := Node k (epre ++ E :: epost)) in *.
   set (ci := length epre) in *. set (oi := length pre) in *.
@@ -126,9 +126,6 @@ Proof.
   assert (HGe : get_path T [ci] = Some E) by (cbn [get_path T children]; unfold ci; now rewrite nth_error_app_len).
   assert (HGo : get_path T ([ci] ++ [oi]) = Some O).
   { eapply get_path_child; [exact HGe|]. unfold oi. apply nth_error_app_len. }
-  destruct (crel_no_ws r) as [Wh Wt].
-  assert (HRn : exists ncs, crel_tree r = Node RELATION ncs) by (eexists; reflexivity). destruct HRn as (ncs & Encs).
-  rewrite Encs in HR, Wh, Wt. cbn [children] in Wh, Wt.
   pose proof (nth_error_Some_lt _ _ _ HT) as Hlt. pose proof (nth_error_Some_lt _ _ _ HR) as Hlr.
   (* the registers after the handles are taken *)
   set (rs5 := [Some (mk_hnd tid []); Some (mk_hnd tid [ci]); b; c; Some (mk_hnd tr [])]).
@@ -167,8 +164,8 @@ Proof.
   assert (ET2 : upd_path T1' [ci] (fun _ => Node ENTRY (pre ++ C :: post)) = Node k (epre ++ Node ENTRY (pre ++ C :: post) :: epost)).
   { unfold T1'. cbn [upd_path]. unfold ci. now rewrite upd_nth_app_r. }
   rewrite ET2 in T2.
-  assert (EC : C = dressed O (crel_tree r)).
-  { unfold dressed, O, C. rewrite Encs. cbn [children set_children ekind]. unfold ws_head, strip_ws. rewrite Hh, Wh. cbn [firstn skipn app].
+  assert (EC : C = dressed O (Node RELATION ncs)).
+  { unfold dressed, O, C. cbn [children set_children ekind]. unfold ws_head, strip_ws. rewrite Hh, Wh. cbn [firstn skipn app].
     rewrite Wt, Nat.sub_0_r, firstn_all. reflexivity. }
   assert (F2r0 : F2 (mk_hnd tid []) = mk_hnd tid []) by (apply A2; [cbn; congruence|apply above_root]).
   assert (F2r1 : F2 (mk_hnd tid [ci]) = mk_hnd tid [ci]) by (apply A2; [cbn; congruence|apply above_self]).
@@ -210,6 +207,22 @@ Proof.
       rdone. }
     rdone.
   - rewrite T2, EC. reflexivity.
+Qed.
+
+Lemma ereplace_runs_gen k epre epost pre ocs post r j ts tid ri b c tr rr :
+  nth_error ts tid = Some (mk_slot true ri (Node k (epre ++ Node ENTRY (pre ++ Node RELATION ocs :: post) :: epost))) ->
+  nth_error ts tr = Some (mk_slot true rr (crel_tree r)) -> tid <> tr ->
+  nth_index is_relation j (pre ++ Node RELATION ocs :: post) = Some (length pre) ->
+  ws_prefix_len ocs = 0 ->
+  exists ts' a' b' c' x,
+    runs (run_op fixed (OEReplace 0 j 1))
+         (st5 ts (mk_hnd tid []) (Some (mk_hnd tid [length epre])) b c (Some (mk_hnd tr []))) x
+         (st5 ts' (mk_hnd tid []) a' b' c' None) /\
+    nth_error ts' tid = Some (mk_slot true ri
+      (Node k (epre ++ Node ENTRY (pre ++ dressed (Node RELATION ocs) (crel_tree r) :: post) :: epost))).
+Proof.
+  intros HT HR Hne Hidx Hh. destruct (crel_no_ws r) as [Wh Wt].
+  exact (ereplace_runs_new k epre epost pre ocs post (children (crel_tree r)) j ts tid ri b c tr rr HT HR Hne Hidx Hh Wh Wt).
 Qed.
 
 (* ------------------------------------------------------------------ one abstract operation, on any tree: all twelve *)
